@@ -29,10 +29,9 @@ def _api_distribution(pid, tier):
     return d
 
 # public types with to_bytes/from_bytes that have no schema (not covered by either stream)
-UNMODELLED = ["FixedTransaction", "FixedBlock", "FixedVersionedBlock", "FixedTransactionBody", "FixedTransactionBodies", "FixedTxWitnessesSet",
-              "VersionedBlock", "GenesisHashes", "ScriptHashes", "RewardAddresses", "AssetNames", "TransactionMetadatumLabels",
-              "ScriptPubkey", "ScriptAll", "ScriptAny", "ScriptNOfK", "TimelockStart", "TimelockExpiry", "BigNum",
-              "Address / ByronAddress / Pointer (own byte format: see C11)", "hash and key types (raw bytes: see C12)"]
+UNMODELLED = ["FixedTransaction", "FixedBlock", "FixedVersionedBlock", "FixedTransactionBody", "FixedTransactionBodies", "FixedTxWitnessesSet"
+              " (original-bytes carriers: see C04)",
+              "Address / ByronAddress / Pointer (own byte format: see C11)", "hash, key and signature types (raw bytes: see C12)"]
 
 def _custom(pid, cfg, tier, seed):
     import verif_lib
